@@ -3,6 +3,7 @@ package main
 // Registering spec functions, axioms and spec-level lemmas.
 
 import (
+	"go/types"
 	"fmt"
 	"strings"
 )
@@ -61,7 +62,7 @@ func (p *Program) RegisterSpecs() (err error) {
 			p.SkippedSpecs = append(p.SkippedSpecs, "fn "+f.Name)
 			continue
 		}
-		s, _, err := p.sortFromText(f.Ret, nil)
+		s, retTy, err := p.sortFromText(f.Ret, nil)
 		if err != nil {
 			if strings.Contains(err.Error(), "unknown package") {
 				p.SkippedSpecs = append(p.SkippedSpecs, "fn "+f.Name)
@@ -70,6 +71,12 @@ func (p *Program) RegisterSpecs() (err error) {
 			return fmt.Errorf("%s:%d: fn %s: %v", f.File, f.Line, f.Name, err)
 		}
 		d.Ret = s
+		if retTy != nil {
+			if p.specFnRetType == nil {
+				p.specFnRetType = map[string]types.Type{}
+			}
+			p.specFnRetType[f.Name] = retTy
+		}
 		if _, dup := p.U.Funs[d.Name]; dup {
 			return fmt.Errorf("%s:%d: duplicate spec function %s", f.File, f.Line, f.Name)
 		}
